@@ -11,10 +11,20 @@ independently here, the extracted *proved* parser applied to the
 implementation's manifest recovers every field, same-second datetimes (other
 zone, other sub-second part) give equal objects and ids, other seconds give
 different manifests.
+
+Environment: nothing in the property may depend on the machine's local timezone
+(TZ / localtime), and the sandbox runs in UTC where e.g. time.mktime and
+calendar.timegm coincide.  Every case therefore records a local zone ("tz": an
+IANA name or a POSIX TZ string) under which the implementation is evaluated
+(os.environ["TZ"] + time.tzset(), restored afterwards); a share is evaluated
+under a second zone as well and the two ids must agree.  The expected manifest
+and the model have no such input.
 """
 import datetime as _dt
 import hashlib
 import itertools
+import os
+import time as _time
 
 from .core import exc_class, hx, unhx
 from .gitobj_common import gen_bytes
@@ -37,19 +47,32 @@ RULE = ("ExtID: type strings (plain, empty, with space / newline, non-ASCII = re
         "(whole hours -12..+14, +05:30, -09:30, +05:45, +12:45, sub-minute and sub-second offsets), +-2 s around the epoch, "
         "microseconds {0, 1, 999999, random}, year 2, year 9998; each metadata case is also built at the same instant in another "
         "zone, in the same second with another sub-second part, and in a neighbouring second. "
+        "ENVIRONMENT: every case (metadata and ExtID) is evaluated with the process' LOCAL timezone set to a zone cycling through a "
+        "pool (UTC; IANA zones with whole-hour, 30- and 45-minute offsets, +14, -12, northern/southern/30-minute/negative DST, a "
+        "skipped calendar day; POSIX TZ strings with and without DST rules) via TZ + time.tzset(); every 4th metadata case is built "
+        "under a second local zone too and the ids must be equal; about a quarter of the metadata dates lie within seconds / one "
+        "hour / one local offset of a DST transition of the local zone (instants whose UTC wall-clock fields are a non-existent or "
+        "ambiguous local time); naive datetimes (no tzinfo) must be rejected with ValueError under every zone. "
         "non-trivial = at least one optional / context line; distinct = distinct case")
 TRUSTED = ["Python datetime arithmetic (aware datetime -> exact integer microseconds since the epoch, utcoffset) used to abstract a "
            "datetime as (epoch_us, offset_us)",
            "str.encode() = UTF-8 (text fields are passed to the model as the bytes they encode to)",
            "bytes join/split/str(int) as modelled in lib/Headers.v, lib/Dec.v; hash_to_hex as lib/Hex.v hexlify",
            "lib/Sha1.v as an instance of the hash oracle (compared with hashlib on every case)",
-           "MetadataAuthorityType values are literals of the model (no generated table); cross-checked against the enum on every run (pre_checks)"]
+           "MetadataAuthorityType values are literals of the model (no generated table); cross-checked against the enum on every run (pre_checks)",
+           "os.environ['TZ'] + time.tzset() (glibc, /usr/share/zoneinfo) switch the local timezone of the process as a differently "
+           "configured machine would; the harness' own date arithmetic uses only aware/naive datetime subtraction, never local time"]
 ASSUMPTIONS = ["text fields are surrogate-free (otherwise .encode() raises: outside the domain)",
                "the UTC equivalent of the discovery date is representable (years 1..9999), otherwise astimezone raises OverflowError: outside the domain",
                "fetcher.version is space-free (hypothesis of C15_emd_parse / C15_emd_injective, as the manifest format requires; "
                "C15_fetcher_space_needed shows it is necessary); format and authority url are arbitrary",
                "authority.metadata / fetcher.metadata are not part of the manifest (checked: they do not influence the id) and are not modelled",
-               "arguments of the wrong Python type (AttributeTypeError) are outside the model: Coq typing plays that role"]
+               "arguments of the wrong Python type (AttributeTypeError) are outside the model: Coq typing plays that role",
+               "the machine's local timezone is NOT an input of the model nor of the documented manifest: the expected manifest / id / "
+               "normalised date of a case are the same under every local zone, and the implementation is required to agree under each "
+               "zone of the pool (checked per case; zones absent from /usr/share/zoneinfo are dropped from the pool at import)",
+               "naive datetimes are not an input of the model (a datetime there is an instant + offset); on the implementation they must "
+               "be rejected with ValueError under every local zone (accepting one would make the id depend on the machine's zone)"]
 
 CORE = ["snp", "rel", "rev", "dir", "cnt"]
 EXT = CORE + ["ori", "emd"]
@@ -87,6 +110,79 @@ EPOCH_UTC = _dt.datetime(1970, 1, 1, tzinfo=_dt.timezone.utc)
 US = _dt.timedelta(microseconds=1)
 YEAR2_US = (_dt.datetime(2, 1, 1) - EPOCH_NAIVE) // US
 YEAR9998_US = (_dt.datetime(9998, 12, 31, 23, 59, 59, 999999) - EPOCH_NAIVE) // US
+
+
+# ------------------------------------------------------------------ local timezone of the process
+_ZONEINFO = "/usr/share/zoneinfo"
+_TZ_IANA = ["UTC", "America/New_York", "Asia/Kolkata", "Pacific/Chatham", "Pacific/Kiritimati", "America/St_Johns",
+            "Europe/London", "Australia/Lord_Howe", "Etc/GMT+12", "Asia/Kathmandu", "Europe/Dublin", "Pacific/Apia",
+            "America/Sao_Paulo", "Africa/Monrovia", "Australia/Adelaide", "Asia/Tehran"]
+_TZ_POSIX = ["XXX-7:30", "YYY5", "AAA-3", "EST5EDT,M3.2.0,M11.1.0", "CET-1CEST,M3.5.0,M10.5.0/3", "NZST-12NZDT,M9.5.0,M4.1.0/3",
+             "QQQ11:59:59", "RRR-13:45"]
+TZ_POOL = [z for z in _TZ_IANA if os.path.exists(os.path.join(_ZONEINFO, z))] + _TZ_POSIX
+
+
+class local_tz:
+    """with local_tz(zone): the process' local timezone is `zone` (None = leave it alone); restored on exit"""
+
+    def __init__(self, zone):
+        self.zone = zone
+
+    def __enter__(self):
+        self.old = os.environ.get("TZ")
+        if self.zone is not None:
+            os.environ["TZ"] = self.zone
+            _time.tzset()
+
+    def __exit__(self, *a):
+        if self.zone is not None:
+            if self.old is None:
+                os.environ.pop("TZ", None)
+            else:
+                os.environ["TZ"] = self.old
+            _time.tzset()
+
+
+_TRANSITIONS = {}
+
+
+def tz_transitions(zone):
+    """[(t, offset_before, offset_after)] : the instants (epoch seconds, 1900..2100) at which the UTC offset of the local zone
+    `zone` changes, found by sampling time.localtime under that zone (works for IANA names and POSIX strings alike)"""
+    if zone not in _TRANSITIONS:
+        res = []
+        with local_tz(zone):
+            step = 7 * 86400
+            t = -2208988800
+            prev = _time.localtime(t).tm_gmtoff
+            while t < 4102444800:
+                n = t + step
+                off = _time.localtime(n).tm_gmtoff
+                if off != prev:
+                    lo, hi = t, n
+                    while hi - lo > 1:
+                        mid = (lo + hi) // 2
+                        if _time.localtime(mid).tm_gmtoff == prev:
+                            lo = mid
+                        else:
+                            hi = mid
+                    res.append((hi, prev, off))
+                    prev = off
+                t = n
+        _TRANSITIONS[zone] = res
+    return _TRANSITIONS[zone]
+
+
+def gen_instant_near_transition(rng, zone):
+    """an instant close to a change of the local zone's UTC offset: at the transition itself, and where the UTC wall-clock
+    fields, read as local time, fall into the skipped / repeated hour"""
+    tr = tz_transitions(zone)
+    if not tr:
+        return None
+    t, before, after = rng.choice(tr)
+    base = rng.choice([t, t + before, t + after, t - before, t - after])
+    delta = rng.choice([-7200, -3601, -3600, -3599, -1800, -2, -1, 0, 1, 2, 1799, 1800, 3599, 3600, 3601, 7200])
+    return (base + delta) * 10**6 + rng.choice([0, 1, 999999, rng.randrange(10**6)])
 
 
 def mk_datetime(us, off_us):
@@ -204,9 +300,18 @@ def gen_emd(rng, k):
                 f = rng.choice(fs)
                 c[f] = [rng.choice([x for x in CORE if x != SWHID_CTX[f]]), gen_id(rng)]
                 c["bad"] = bad
+    c["tz"] = TZ_POOL[k % len(TZ_POOL)]
+    c["tz2"] = TZ_POOL[(k // 4 * 7 + 3) % len(TZ_POOL)] if k % 4 == 1 else None
     us = gen_instant(rng)
+    if k % 4 == 2 or k % 8 == 7:
+        near = gen_instant_near_transition(rng, c["tz"])
+        if near is not None:
+            us = near
+            c["near_transition"] = True
     c["date"] = [us, ZONES_US[k % len(ZONES_US)]]
     c["alts"] = gen_alts(rng, us)
+    if k % 29 == 28:
+        c["naive"] = True       # no tzinfo at all: must be rejected whatever the local zone
     return c
 
 
@@ -218,7 +323,7 @@ def gen_extid(rng, k):
             "type": rng.choice(["hg-nodeid", "", "a b", "with\nnewline", "é", "tyépe", "nar-sha256", "x\n", " t", "checksum-sha512"]),
             "extid": gen_bytes(rng).hex(), "ttype": CORE[(k // 6) % 5], "tid": gen_id(rng),
             "version": rng.choice([0, 0, 1, -1, 2**70, -2**70, rng.randrange(-1000, 1000)]),
-            "ptype": ptype, "payload": payload}
+            "ptype": ptype, "payload": payload, "tz": TZ_POOL[(k * 5 + 1) % len(TZ_POOL)]}
 
 
 def gen(rng, tier):
@@ -235,7 +340,8 @@ def nontrivial(c):
 
 def classify(c):
     if c["kind"] == "extid":
-        return ["extid", "extid:version=" + ("0" if c["version"] == 0 else "neg" if c["version"] < 0 else "pos"),
+        return ["extid", "local-tz=" + str(c.get("tz")),
+                "extid:version=" + ("0" if c["version"] == 0 else "neg" if c["version"] < 0 else "pos"),
                 "extid:payload=" + {(False, False): "none", (True, True): "both"}.get(
                     (c["ptype"] is not None, c["payload"] is not None), "half"),
                 "extid:nl-in-extid" if b"\n" in bytes.fromhex(c["extid"]) else "extid:no-nl"]
@@ -248,6 +354,13 @@ def classify(c):
         ks.append("emd:rejected:" + c["bad"])
     if " " in c["version"]:
         ks.append("emd:version-with-space")
+    ks.append("local-tz=" + str(c.get("tz")))
+    if c.get("tz2"):
+        ks.append("emd:second-local-tz")
+    if c.get("near_transition"):
+        ks.append("emd:near-local-dst-transition")
+    if c.get("naive"):
+        ks.append("emd:naive-datetime")
     return ks
 
 
@@ -332,7 +445,7 @@ def _core_swhid(t, i):
     return CoreSWHID(object_type=ObjectType(t), object_id=bytes.fromhex(i))
 
 
-def _build_emd(c, date, variant=0):
+def _build_emd(c, date, variant=0, naive=False):
     from swh.model.model import MetadataAuthority, MetadataAuthorityType, MetadataFetcher, RawExtrinsicMetadata
     from swh.model.swhids import ExtendedObjectType, ExtendedSWHID
     md = None if variant == 0 else {"some": "metadata", "n": 1}
@@ -344,17 +457,38 @@ def _build_emd(c, date, variant=0):
         kw[f] = _core_swhid(*v) if f in SWHID_CTX else bytes.fromhex(v) if f == "path" else v
     return RawExtrinsicMetadata(
         target=ExtendedSWHID(object_type=ExtendedObjectType(c["ttype"]), object_id=bytes.fromhex(c["tid"])),
-        discovery_date=mk_datetime(*date),
+        discovery_date=(EPOCH_NAIVE + _dt.timedelta(microseconds=date[0] + date[1])) if naive else mk_datetime(*date),
         authority=MetadataAuthority(type=MetadataAuthorityType(AUTH[c["authority"]]), url=c["url"], metadata=md),
         fetcher=MetadataFetcher(name=c["name"], version=c["version"], metadata=md),
         format=c["format"], metadata=bytes.fromhex(c["metadata"]), **kw)
 
 
 def impl_emd(c):
+    with local_tz(c.get("tz")):
+        res = _impl_emd(c)
+    if c.get("tz2") and "id" in res:
+        # the same object on a machine configured for another zone
+        with local_tz(c["tz2"]):
+            try:
+                from swh.model import git_objects
+                o2 = _build_emd(c, c["date"])
+                res["tz2"] = {"id": o2.id.hex(), "manifest": git_objects.raw_extrinsic_metadata_git_object(o2).hex()}
+            except Exception as e:
+                res["tz2"] = {"error": exc_class(e)}
+    return res
+
+
+def _impl_emd(c):
     from swh.model import git_objects
     d = mk_datetime(*c["date"])
     if abstract_datetime(d) != list(c["date"]):
         return {"error": "Other(harness: datetime abstraction is not exact)"}
+    if c.get("naive"):
+        try:
+            o = _build_emd(c, c["date"], naive=True)
+        except Exception as e:
+            return {"error": exc_class(e), "naive": True}
+        return {"naive_accepted": True, "id": o.id.hex(), "manifest": git_objects.raw_extrinsic_metadata_git_object(o).hex()}
     try:
         o = _build_emd(c, c["date"])
     except Exception as e:
@@ -399,7 +533,10 @@ def impl_extid(c):
 
 
 def impl(c):
-    return impl_extid(c) if c["kind"] == "extid" else impl_emd(c)
+    if c["kind"] == "extid":
+        with local_tz(c.get("tz")):
+            return impl_extid(c)
+    return impl_emd(c)
 
 
 # ------------------------------------------------------------------ model requests
@@ -430,6 +567,8 @@ def requests(c, ires):
         if "manifest" in ires:
             r.append("pextid " + hx(bytes.fromhex(ires["manifest"])))
         return r
+    if c.get("naive"):
+        return []       # a naive datetime is not an input of the model
     r = [emd_request(c, c["date"])] + [emd_request(c, a) for a in c["alts"]]
     if "manifest" in ires:
         r.append("pemd " + hx(bytes.fromhex(ires["manifest"])))
@@ -442,6 +581,8 @@ def model(c, resp):
         if len(resp) > 1:
             res["parsed_impl_manifest"] = resp[1]
         return res
+    if c.get("naive"):
+        return {"main": "err ValueError"}     # normalize_discovery_date: "discovery_date must be a timezone-aware datetime"
     res = {"main": resp[0], "alts": resp[1:4]}
     if len(resp) > 4:
         res["parsed_impl_manifest"] = resp[4]
@@ -489,6 +630,10 @@ def oracle_extid(c, ires, mres):
 
 def oracle_emd(c, ires, mres):
     valid = emd_expected_valid(c)
+    if c.get("naive"):
+        if ires.get("naive_accepted"):
+            return "a naive discovery_date (no tzinfo) was accepted under local zone %s: the id then depends on the machine's timezone" % c.get("tz")
+        return None       # the exception class is compared in compare()
     if "error" in ires:
         if ires["error"].startswith("Other(harness"):
             return None
@@ -504,7 +649,9 @@ def oracle_emd(c, ires, mres):
     if ires["swhid"] != "swh:1:emd:" + ires["id"]:
         return "swhid() is not swh:1:emd:<id>"
     if man != emd_spec_manifest(c, us):
-        return "metadata manifest is not the documented header list (floor second, fixed context order)"
+        return "metadata manifest is not the documented header list (floor UTC second, fixed context order) [local zone %s]" % c.get("tz")
+    if "tz2" in ires and (ires["tz2"].get("id") != ires["id"] or ires["tz2"].get("manifest") != ires["manifest"]):
+        return "the same object gets another id / manifest when the machine's local zone is %s instead of %s" % (c["tz2"], c.get("tz"))
     if ires["id_variant"] != ires["id"]:
         return "authority.metadata / fetcher.metadata influence the id"
     if ires["norm_date"] != [us - us % 10**6, 0]:
@@ -598,6 +745,12 @@ def shrink(c):
             yield dict(c, type=c["type"][:len(c["type"]) // 2])
             yield dict(c, type=c["type"][1:])
         return
+    if c.get("tz2"):
+        yield dict(c, tz2=None)
+    if c.get("tz") not in (None, "UTC", "AAA-3", "YYY5"):
+        yield dict(c, tz="AAA-3")
+        yield dict(c, tz="YYY5")
+        yield dict(c, tz="UTC")
     for f in reversed(CTX_ORDER):
         if c[f] is not None:
             yield dict(c, **{f: None})
@@ -659,7 +812,7 @@ def coq_cases(cases):
     for kind in ("emd", "extid"):
         n = 0
         for c in cases:
-            if c["kind"] != kind or n >= COQ_PER_KIND:
+            if c["kind"] != kind or n >= COQ_PER_KIND or c.get("naive"):
                 continue
             rq = requests(c, {})[0]
             if len(rq) <= 1200:
